@@ -155,7 +155,7 @@ pub fn lift_case(id: &str, c: &Compilation, out: &mut String) {
     if let Some(k) = file_types_recoverable(&c.mono) {
         writeln!(out, "{}\tTYLOSS\t{}", id, k).unwrap();
     }
-    writeln!(out, "{}\tCASE\t{}\t{}", id, tagged("liftin", input).to_text(), tagged("liftout", output).to_text()).unwrap();
+    writeln!(out, "{}\tCASE\t{}\t{}\t{}", id, tagged("liftin", input).to_text(), tagged("liftout", output).to_text(), c01::impls_table(&c.genv).to_text()).unwrap();
 }
 
 fn one(id: &str, outcome: Outcome, src: &str, expected: Option<&str>, out: &mut String) -> bool {
@@ -211,6 +211,41 @@ pub fn main(args: &util::Args) {
         }
         let _ = std::fs::remove_dir_all(&dir);
     }
+    // generated closure programs: main stream (flows the pass rewrites) and, every fourth
+    // program, exactly one flow outside the rewriting
+    let total = args.n.unwrap_or(if args.tier == "thorough" { 4000 } else { 400 });
+    let dir = util::scratch_dir("c08");
+    let mut feats_total: std::collections::BTreeMap<&'static str, usize> = Default::default();
+    let (mut accepted, mut rejected) = (0usize, 0usize);
+    for i in 0..total {
+        let mut root = crate::rng::Rng::new(args.seed);
+        let mut rng = root.fork(i as u64);
+        let mut flows = 0u32;
+        for b in 0..6 {
+            if rng.chance(2, 3) {
+                flows |= 1 << b;
+            }
+        }
+        let mut tag = String::new();
+        if i % 4 == 3 {
+            let (f, name) = crate::progen::flow::OTHER[(i / 4) % crate::progen::flow::OTHER.len()];
+            flows |= f;
+            tag = format!(":{}", name);
+        }
+        let cfg = crate::progen::CloCfg { flows, nest: 1 + i % 4, stmts: 1 + i % 3 };
+        let (src, feats) = crate::progen::gen_closure_program(&mut rng, cfg);
+        let id = format!("gen:{}:{}{}", args.seed, i, tag);
+        if one(&id, util::compile_text(&dir, &src), &src, None, &mut out) {
+            accepted += 1;
+            for (k, v) in feats {
+                *feats_total.entry(k).or_default() += v;
+            }
+        } else {
+            rejected += 1;
+        }
+    }
+    let _ = std::fs::remove_dir_all(&dir);
+    writeln!(out, "#FEATS\t{} accepted={} rejected={}", feats_total.iter().map(|(k, v)| format!("{}={}", k, v)).collect::<Vec<_>>().join(" "), accepted, rejected).unwrap();
     let _ = std::fs::create_dir_all(&args.out);
     std::fs::write(args.out.join("c08.cases.tsv"), out).unwrap();
 }
